@@ -25,6 +25,10 @@ pub struct Case {
     /// release the held connections this many ms after the signal (None: never)
     pub release_after_ms: Option<u32>,
     pub shutdown_timeout_s: u32,
+    /// a thread of the server process keeps sending harmless commands (`resume()`) through the
+    /// handle while the signal arrives: signals and commands reach the server through one stream
+    #[serde(default)]
+    pub chatter: bool,
 }
 
 /// child mode: `vcheck __child-server <shutdown_timeout_s>`
@@ -33,6 +37,7 @@ pub fn child_main(args: &[String]) -> ! {
     use actix_service::fn_service;
     use tokio::io::{AsyncReadExt, AsyncWriteExt};
     let timeout: u64 = args.first().and_then(|s| s.parse().ok()).unwrap_or(2);
+    let chatter = args.get(1).map(|a| a == "chatter").unwrap_or(false);
     let lst = std::net::TcpListener::bind("127.0.0.1:0").expect("bind");
     let port = lst.local_addr().unwrap().port();
     let r = actix_rt::System::new().block_on(async move {
@@ -49,6 +54,13 @@ pub fn child_main(args: &[String]) -> ! {
             })
             .expect("listen")
             .run();
+        if chatter {
+            let h = srv.handle();
+            std::thread::spawn(move || loop {
+                drop(h.resume());
+                std::thread::sleep(std::time::Duration::from_micros(150));
+            });
+        }
         println!("PORT {port}");
         let _ = std::io::stdout().flush();
         srv.await
@@ -61,6 +73,7 @@ pub fn check_case(c: &Case) -> CaseResult {
     let mut child = Command::new(exe)
         .arg("__child-server")
         .arg(c.shutdown_timeout_s.to_string())
+        .arg(if c.chatter { "chatter" } else { "quiet" })
         .stdin(Stdio::null())
         .stdout(Stdio::piped())
         .stderr(Stdio::null())
@@ -180,6 +193,7 @@ pub fn check_case(c: &Case) -> CaseResult {
         Sig::Quit => "SIGQUIT",
     });
     obs.label_if(held, "held-connection");
+    obs.label_if(c.chatter, "commands-while-signalled");
     Ok(obs)
 }
 
@@ -196,7 +210,11 @@ pub fn all_cases() -> Vec<Case> {
                     if sig == Sig::Term && t == 30 && release.is_none() && held != 1 {
                         continue;
                     }
-                    v.push(Case { sig, held, release_after_ms: release, shutdown_timeout_s: t });
+                    v.push(Case { sig, held, release_after_ms: release, shutdown_timeout_s: t, chatter: false });
+                    // the same while commands keep arriving (one timeout each is enough)
+                    if held <= 1 && (t == 2) == (sig == Sig::Term) {
+                        v.push(Case { sig, held, release_after_ms: release, shutdown_timeout_s: t, chatter: true });
+                    }
                 }
             }
         }
